@@ -157,6 +157,17 @@ var props = map[string]propCfg{
 		},
 		MinNontriv: 30,
 	},
+	"C07": {
+		Quick:    tierCfg{Shards: 8, Checks: 120, Timeout: 4 * time.Minute},
+		Thorough: tierCfg{Shards: 16, Checks: 2500, Timeout: 40 * time.Minute},
+		Rule: "compiling patches that put captured code where it may not fit (38 templates: expression holes reproduced in if/for/switch headers, selectors, index and composite positions, type positions, labels, statements <-> expressions; fillers include composite literals, key:value pairs, variadic x..., type expressions, func literals), template-grammar ill-typed patches, and mined patterns on real hosts; every case is run through the library API and through the CLI in 8 mode x flag combinations (in place, --print-only, --diff, each with and without --skip-import-processing, plus --skip-generated and -v). Oracle: every content emitted with exit status 0 (file bytes after an in-place run, --print-only stdout, original + applied --diff, Apply result) must parse with go/parser; when an error is reported instead, stderr must name the file, the file must be byte-identical and no new content may have been printed for it (an unchanged echo under --print-only is not an emission). " +
+			"Non-trivial = some mode emitted content that differs from the input or reported a 'would not parse' error; distinct by sha256(patch, file).",
+		Assumptions: []string{
+			"patches gopatch rejects at load time are not judged (nothing is emitted)",
+			"the unified diff printed by --diff is applied by a 60-line applier in the harness; a diff that does not apply is counted as unjudged here (C12 judges agreement of the modes)",
+		},
+		MinNontriv: 100,
+	},
 }
 
 var modelAssumptions = []string{
